@@ -5,6 +5,13 @@ from ..vectors.vectors import Vector
 
 # Curve element is its tangent vector
 def parametrized_curve_element(trajectory: Vector, parameter: Expr) -> Vector:
+    # derivative of coordinates is the tangent vector in cartesian coordinates only, eg for
+    # cylindrical coordinates it is (dr, r * dtheta, dz)
+    if trajectory.coordinate_system.coord_system_type != CoordinateSystem.System.CARTESIAN:
+        coord_name_from = CoordinateSystem.system_to_transformation_name(
+            trajectory.coordinate_system.coord_system_type)
+        raise ValueError(
+            f"Curve element is only supported for cartesian coordinates: got {coord_name_from}")
     trajectory_sympy_vector = trajectory.to_sympy_vector()
     trajectory_element_sympy_vector = diff(trajectory_sympy_vector, parameter)
     return Vector.from_sympy_vector(trajectory_element_sympy_vector, trajectory.coordinate_system)
